@@ -55,6 +55,14 @@ def program(rng, with_assign):
     for i in range(n):
         r = rng.random()
         name = "v%d" % i
+        if tables and r < 0.12:
+            # row selection by a logical mask (a rejected row before a selected one), by index vector and by range
+            t = rng.choice(tables); col = "a" if t == "ta" else "b"
+            sel = rng.choice(["%s{%s.id > %d}" % (t, t, rng.randint(1, 8)), "%s[%s.%s > %d]" % (t, t, col, rng.choice([20, 50, 103, 105])),
+                              "%s{%s.id != %d}" % (t, t, rng.randint(1, 11)), "%s[[2 1]]" % t, "%s[1..=2]" % t,
+                              "%s{%s.id == %d}" % (t, t, rng.randint(1, 11))])
+            stmts.append("%s := %s" % (name, sel)); names.append((name, "o"))
+            continue
         if tables and r < 0.3:
             a, b = rng.sample(tables, 2) if rng.random() < 0.8 else (tables[0], tables[0])
             sym, word = rng.choice([("⋈", "table/join"), ("⟕", "table/left-outer-join"), ("⟖", "table/right-outer-join"),
